@@ -60,9 +60,19 @@ pub fn run(case: &Sx) -> (Sx, String) {
     for kv in case.at(1).as_l() { f.insert(format!("f{}", kv.at(0).as_i()), Value::Integer(kv.at(1).as_i() as i64)); }
     facts.add_value("F", Value::Object(f)).unwrap();
     let eng = ParallelRuleEngine::new(ParallelConfig { enabled: cfg.at(0).as_b(), max_threads: cfg.at(1).as_us(), min_rules_per_thread: cfg.at(2).as_us(), dependency_analysis: true });
+    // a decoy knowledge base with the same name, the same number of rules (hence the same version counter) and the same
+    // rule names, but negated conditions and reversed saliences: the SAME engine runs it before every second observed
+    // run, so anything the engine remembers about "the" knowledge base between calls shows up in the observed run
+    let decoy = KnowledgeBase::new("kb");
+    for r in case.at(2).as_l() {
+        let mut rule = Rule::new(format!("r{}", r.at(0).as_i()), ConditionGroup::not(mk_cond(r.at(3))), vec![]).with_salience(-(r.at(1).as_i() as i32));
+        rule.enabled = r.at(2).as_b();
+        decoy.add_rule(rule).unwrap();
+    }
     let mut obs = vec![]; let mut nfired = 0;
     rust_rule_engine::verif_hooks::set_yield(true);
-    for _ in 0..case.at(3).as_us() {
+    for rep in 0..case.at(3).as_us() {
+        if rep % 2 == 0 { let _ = eng.execute_parallel(&decoy, &facts, false).unwrap(); }
         let r = eng.execute_parallel(&kb, &facts, false).unwrap();
         let mut ctx: Vec<(i64, bool)> = r.execution_contexts.iter().map(|c| (c.rule.name[1..].parse::<i64>().unwrap(), c.fired)).collect();
         ctx.sort();
